@@ -267,7 +267,8 @@ class Types:
         if isinstance(e, (ast.List, ast.ListComp)):
             el = UNKNOWN
             if isinstance(e, ast.List) and e.elts:
-                el = self.expr(f, e.elts[0], env)
+                first = e.elts[0]
+                el = self.elem_of(self.expr(f, first.value, env)) if isinstance(first, ast.Starred) else self.expr(f, first, env)
             if isinstance(e, ast.ListComp):
                 el = self.expr(f, e.elt, self._comp_env(f, e, env))
             return T("list", elem=el)
